@@ -7,6 +7,7 @@ CONSTANTS
   MaxPauses = 2
   TimeoutTicks = 2
   MaxTicks = 3
+  Weaken = "none"
   StopRoles <- NoRoles
 INVARIANTS TypeOK Fidelity NoSilentCorruption NoFalseSuccess ShortPauseCompletes
 PROPERTIES Termination NoDataWhilePaused
